@@ -190,6 +190,11 @@ def join(a, b):
             return b.w(maybe_empty=True, const=None, litconst=None)
         if fb.get('elts') == [] and fa.get('elts') != [] and not fb.get('kw'):
             return a.w(maybe_empty=True, const=None, litconst=None)
+    if fa.get('ty') == fb.get('ty') == 'ext' and fa.get('qual') != fb.get('qual'):
+        # one of several library callables (f = np.degrees if flag else np.asarray): remember the alternatives
+        alts = tuple(sorted(set((fa.get('ext_alts') or ((fa.get('qual'),) if fa.get('qual') else ())) +
+                                (fb.get('ext_alts') or ((fb.get('qual'),) if fb.get('qual') else ())))))
+        return AV(ty='ext', ext_alts=alts)
     if fa.get('ty') == fb.get('ty') == 'ndarray':
         # np.array([]) joined with a computed array: the computed one, possibly empty
         if fa.get('litconst') == ('c', []) and fb.get('litconst') != ('c', []):
@@ -1184,6 +1189,15 @@ class Interp:
             return self.call_function(fi, args, kwargs, st, self_av=func.bound, node=n, closure=func.closure)
         if ty == 'class':
             return self.construct(func.cls, args, kwargs, frame, st, n)
+        if ty == 'ext' and func.qual is None:
+            if func.ext_alts:
+                outs = []
+                for q in func.ext_alts:
+                    self.emit('extcall', n, callee=q, args=args, kwargs=kwargs)
+                    outs.append(self.model.call_ext(self, st, q, args, kwargs, n, frame))
+                return join_all(outs)
+            self.note(f'call of unknown callee {norm_text(n.func)[:60]}', n)
+            return AV(deps=self.model.deps_of(args, kwargs))
         if ty == 'ext':
             self.emit('extcall', n, callee=func.qual, args=args, kwargs=kwargs)
             return self.model.call_ext(self, st, func.qual, args, kwargs, n, frame)
